@@ -12,7 +12,7 @@ func init() {
 	register(&PropDef{
 		ID:          "C12",
 		Level:       "other",
-		Explanation: "Retention as decision table plus effect rules: (1) the removal decision touches its inputs only through comparisons; its enumerated paths are evaluated on every order type of definition-exists × (started, completed, canceled) × period{0,+} × (age ? period) × count{0,+} × (rank ? count) and must equal: undefined pipeline → remove; waiting or running → keep; else remove ⇔ (period>0 ∧ age>period) ∨ (count>0 ∧ rank≥count); (2) the rank passed is the index in a fresh copy of the pipeline's list sorted newest-first (comparator orientation checked through the sorter's Less); (3) on the remove edge every path deletes the job from the id index and removes its logs with the job's own id, logs are removed nowhere else, and the file store removes exactly <base>/<jobID>; (4) the persisted snapshot ranges over the id index after the removal loop with no unlock in between and is what is handed to the store; (5) the load loop builds every stored job (a job skipped at start-up would leave the API and the store while its logs stay forever). Decides these shapes, not wall-clock ages or that sort.Sort sorts.",
+		Explanation: "Retention as decision table plus effect rules: (1) the removal decision touches its inputs only through comparisons; its enumerated paths are evaluated on every order type of definition-exists × (started, completed, canceled) × period{0,+} × (age ? period) × count{0,+} × (rank ? count) and must equal: undefined pipeline → remove; waiting or running → keep; else remove ⇔ (period>0 ∧ age>period) ∨ (count>0 ∧ rank≥count); (2) the rank passed is the index in a fresh copy of the pipeline's list sorted newest-first (comparator orientation checked through the sorter's Less); (3) on the remove edge every path deletes the job from the id index and removes its logs with the job's own id, logs are removed nowhere else, and the file store removes exactly <base>/<jobID>; (4) the persisted snapshot ranges over the id index after the removal loop with no unlock in between and is what is handed to the store; (5) the load loop builds every stored job (a job skipped at start-up would leave the API and the store while its logs stay forever). Decides these shapes, not wall-clock ages or that sort.Sort sorts. (6) the helper that takes the job out of its pipeline's list drops exactly the elements equal to the job (identity comparison, orientation checked on the paths of the loop body).",
 		Trusted:     []string{"sort.Sort sorts", "time.Since", "os.RemoveAll removes the tree", "C13", "C09 (a save that returns nil has replaced the snapshot: the stored set is the snapshot taken after the removal)"},
 		NotDecided:  []string{"wall-clock ages", "content of the log directories"},
 		Check:       checkC12,
@@ -328,7 +328,7 @@ func checkC12(w *World, r *Report) {
 			}
 			res := PathQuery{Fn: save, Start: []ssa.Instruction{outerNext}, Target: func(x ssa.Instruction) bool { return x == outerNext },
 				BlockInstr: func(x ssa.Instruction) bool { return x.Block() == innerHdr },
-				BlockEdge: func(b *ssa.BasicBlock, s int) bool { e, ok := emptyEdge[b]; return ok && e == s }}.Find()
+				BlockEdge:  func(b *ssa.BasicBlock, s int) bool { e, ok := emptyEdge[b]; return ok && e == s }}.Find()
 			r.Check(!res.Found, "rank.every-job-decided", sname+": every pipeline's jobs reach the decision", w.InstrPos(outerNext), "from one pipeline to the next the ranking loop over its jobs is always entered", "the per-pipeline iteration can skip the ranking loop ("+res.String()+"): jobs of such pipelines (e.g. pipelines that are no longer defined, whose lookup yields the zero definition) are never put to the retention decision")
 		}
 	}
@@ -348,6 +348,36 @@ func checkC12(w *World, r *Report) {
 		rb := removeIf.If.Block().Succs[removeIf.SuccTrue]
 		pr := w.EnumPaths(save, EnumOpts{Inline: true, Start: rb, StopBlock: func(b *ssa.BasicBlock) bool { return b == removeIf.If.Block() || b.Index < rb.Index && b.Dominates(rb) }})
 		okDel, okLog := len(pr.Paths) > 0, len(pr.Paths) > 0
+		// the job also leaves its pipeline's list: wherever that list is written back changed, the path has
+		// found the element that IS the removed job (same id, or the same pointer)
+		listAP := "recv.jobsByPipeline[" + jobAP + ".Pipeline]"
+		nShrink, okList, badList := 0, true, ""
+		for _, p := range pr.Paths {
+			for _, e := range p.Effects {
+				if e.Kind != "mapupdate" || e.Target != listAP || e.Val == listAP {
+					continue
+				}
+				nShrink++
+				found := false
+				for _, l := range p.Lits {
+					if l.Atom.Op != "==" || !l.Val {
+						continue
+					}
+					a, b := l.Atom.L, l.Atom.R
+					if strings.HasPrefix(a, listAP+"[") {
+						a, b = b, a
+					}
+					if a == jobAP+".ID" && strings.HasPrefix(b, listAP+"[") && strings.HasSuffix(b, "].ID") || a == jobAP && strings.HasPrefix(b, listAP+"[") && strings.HasSuffix(b, "]") {
+						found = true
+					}
+				}
+				if !found {
+					okList = false
+					badList = p.LitString()
+				}
+			}
+		}
+		r.Check(okList && nShrink > 0, "removal.from-pipeline-list", sname+": removed job leaves its pipeline's list", w.InstrPos(removeIf.If), "the pipeline's list is written back changed only on a path that compared an element with the removed job and found it equal", "on the remove branch the pipeline's job list is changed without having found the removed job in it ("+badList+"): another job is dropped from the list the API and the admission count range over, and the removed one stays")
 		for _, p := range pr.Paths {
 			del, lg := false, false
 			for _, e := range p.Effects {
@@ -507,7 +537,7 @@ func checkC12(w *World, r *Report) {
 	}
 	r.Floor("table.", 1)
 	r.Floor("rank.", 4)
-	r.Floor("removal.", 4)
+	r.Floor("removal.", 5)
 	r.Floor("snapshot.", 2)
 	if nRem == 0 {
 		r.Viol("floor", "outputStore.Remove call sites", "-", "no call of OutputStore.Remove found")
